@@ -33,8 +33,8 @@ def gen(rng, tier):
         if g.undefined_symbols() or not g.all_productive():
             continue
         texts.append(g.render())
-    from gram import seq_grammar, twins_grammar, diamond_grammar, layered_grammar
-    for gen_f, k in ((twins_grammar, 40), (seq_grammar, 25), (diamond_grammar, 15), (layered_grammar, 15)):
+    from gram import seq_grammar, twins_grammar, diamond_grammar, layered_grammar, mutual_grammar
+    for gen_f, k in ((twins_grammar, 40), (seq_grammar, 25), (diamond_grammar, 15), (layered_grammar, 15), (mutual_grammar, 40)):
         for _ in range(k if tier == "quick" else k * 12):
             g = gen_f(rng)
             if g.undefined_symbols() or not g.all_productive():
@@ -68,7 +68,8 @@ def run(rep, tier, seed):
 
 def check(rep, cases, proofs_ok):
     rep.cov["rule"] = ("literature grammars (dragon book LALR/LR(1) examples, Pager-style splits, nullable chains) + random BNF + structured families "
-                       "(twins: shared terminal prefixes in several contexts; seq: nullable recursive sequences; diamond; layered) "
+                       "(twins: shared terminal prefixes in several contexts; seq: nullable recursive sequences; mutual: nonterminals calling each "
+                       "other behind a shared terminal, bare and in deeper contexts; diamond; layered) "
                        "grammars x table types {LALR, LALR_PAGER, LALR_RN}, compiled with the GLR algorithm so that cells keep every "
                        "candidate; per table the comparison with the Lean-built canonical LR(1) automaton is complete over all "
                        "states, items, lookaheads and cells; distinct = (grammar, table type)")
